@@ -237,6 +237,21 @@ func (st *State) addPC(c *Term) {
 	}
 	st.pc = append(st.pc, c)
 	st.pcSet[c.id] = true
+	// an asserted equality with a constant pins the term for later reads (path-sensitive constant propagation)
+	if c.op == OEq && len(c.args) == 2 && c.args[0].sort.isBV() {
+		a, b := c.args[0], c.args[1]
+		if b.isConst() && !a.isConst() {
+			if st.known == nil {
+				st.known = map[int]*Term{}
+			}
+			st.known[a.id] = b
+		} else if a.isConst() && !b.isConst() {
+			if st.known == nil {
+				st.known = map[int]*Term{}
+			}
+			st.known[b.id] = a
+		}
+	}
 }
 
 func (st *State) check(extra ...*Term) Result {
